@@ -13,6 +13,8 @@ dearest selection, plain_cost of the exported chain.
 import itertools, json
 from .common import *
 from . import sn_gen as G
+from . import c06_gen
+from .c06_gen import regenerate      # setup.sh regenerates Gen/SnCostGen.v through this name
 
 TOL = 2.0 ** -18      # float32 accumulation of <= ~100 non-negative terms
 SPECS = ('params', 'ops')
@@ -353,7 +355,9 @@ def coq_table(d, table, spec):
 def run(ctx):
     torch = setup_torch()
     specs = _specs()
+    gen_rejected = c06_gen.regenerate(ctx)
     built = ctx.build()
+    ctx.extra['generated_model'] = c06_gen.status(gen_rejected, built)
     ctx.rule = ('networks of vlib/sn_gen.py (see C03) + a stream with a block invoked twice at different resolutions (fixed MaxPool2d(2) between the two calls); '
                 'metrics params (shared) and ops (per invocation) x full_cost off/on; settings per network: constructed options at uniform coefficients, soft eval, soft/Gumbel train, '
                 'hard eval, hard/Gumbel-hard train, update_softmax_options(hard=...), temperatures {.05,.1,.5,1,2,5,20}, coefficients = distinct multiples of 1/16 (10% ties), '
@@ -459,6 +463,10 @@ def run(ctx):
                                      % (coq(shared_of(st, s)), coq(full), ni, s, coq(thetas), ni, coq(shared_of(st, s)), coq(full), ni, s, coq(alphas), ni))
                         meta.append((ni, d, table, st, o, s, full))
             vals = ctx.coq_eval_sharded('cases', ['Plinio.Model.SuperNet'], defs, exprs, shard=150)
+            # the model GENERATED from the source of the SuperNet cost composition on this run, on the same cases
+            gvals = ctx.coq_eval_sharded('gcases', c06_gen.IMPORTS, defs, c06_gen.gen_exprs(exprs), shard=150)
+            ctx.corr += 4 * len(gvals)
+            mism += c06_gen.differences(meta, exprs, vals, gvals)
             for (ni, d, table, st, o, s, full), v in zip(meta, vals):
                 # Coq prints left-nested pairs flat: ((n, d), lo, hi), ec  ->  (n, d, lo, hi, ec)
                 mcn, mcd, mlo, mhi, ec = v
@@ -486,7 +494,9 @@ def run(ctx):
     ctx.extra['model_impl_mismatches'] = len(mism)
 
     if not ctx.violations:   # a printed KNOWN-FINDING must not hide a broken proof / model / correspondence
-        if not built:
+        if c06_gen.report(ctx, gen_rejected, built):
+            pass
+        elif not built:
             ctx.violation('proof-broken', {'theorems': [o[0] for o in ctx.obligations if not o[1]], 'log': getattr(ctx, 'broken_log', '')[-3000:]}, 'Props/C06.v no longer checks', no_input=True)
         elif not model_ok:
             ctx.violation('model-eval-broken', {'notes': ctx.notes}, 'the model could not be evaluated', no_input=True)
